@@ -54,7 +54,12 @@ impl EnrKey for SigningKey {
 
 impl EnrKeyUnambiguous for SigningKey {
     fn decode_public(bytes: &[u8]) -> Result<Self::PublicKey, DecoderError> {
-        // should be encoded in compressed form, i.e 33 byte raw secp256k1 public key
+        // should be encoded in compressed form, i.e 33 byte raw secp256k1 public key.
+        // `from_sec1_bytes` also understands the x-only "compact" SEC1 form (tag 0x05), which is
+        // not a secp256k1 ENR key and which the other secp256k1 back-end rejects.
+        if bytes.first() == Some(&0x05) {
+            return Err(DecoderError::Custom("Invalid Secp256k1 Signature"));
+        }
         VerifyingKey::from_sec1_bytes(bytes)
             .map_err(|_| DecoderError::Custom("Invalid Secp256k1 Signature"))
     }
